@@ -36,6 +36,7 @@ pub fn check(tier: Tier) -> Check {
     parts.push(Part::new("C07/rolling", json!({"rounds": tier.pick(14, 40)}), 0, 120));
     // value flavour (DESIGN 4): the same exploration with requests / inbound messages of unusual content
     parts.push(Part::new("C07/dispatch", json!({"depth": tier.pick(5, 6), "vals": 1}), tier.pick(0, 1), tier.pick(30, 400)));
+    parts.push(Part::new("C07/dispatch", json!({"depth": tier.pick(5, 6), "vals": 1, "flavour": 1}), 0, tier.pick(30, 400)));
     Check {
         also_rel: false,
         property: "C07",
